@@ -1,132 +1,200 @@
 ----------------------------- MODULE ImportLife -----------------------------
 (***************************************************************************)
 (* C07 - importing a model is behaviour-preserving and leaves the user's   *)
-(* model intact.  Variable-free operator library (used by ImportLifeMC and *)
-(* ImportLifeTrace).                                                       *)
+(* model intact.  Variable-free, self-contained operator library (used by  *)
+(* ImportLifeMC and ImportLifeTrace).                                      *)
 (*                                                                         *)
-(* Architectures are the node sequences of FeatGraph, extended by          *)
-(*   a.two  : "no" | "add" | "cat"   two-input forward (tensor 0 = xa + xb *)
-(*            or cat(xa, xb)),  a.ca = channels of xa                      *)
-(*   node.pl : the conv/linear layer is a PIT layer placed by the user     *)
-(*   node.sn : <<>> or a sequence of branch descriptors [k, bn]: the conv  *)
-(*             node is a SuperNetModule (branch i = conv(k_i) [+ BN])      *)
-(*   node.eps, node.mom : codes of the BatchNorm hyper-parameters          *)
-(*   node.kind : "avg" | "max" for pooling nodes                           *)
+(* An architecture a = [dim, c0, sp, two, ca, nodes] is a sequence of node *)
+(* records (harness/import_gen.py documents the fields); tensor 0 is the   *)
+(* network input (a.two = "add" | "cat": two-input forward, tensor 0 =     *)
+(* xa + xb / cat(xa, xb)), tensor n the output of node n.  Node fields:    *)
+(*   op : conv | lin | lin3 | relu | drop | pool | flat | add              *)
+(*   conv configuration: k, d, s, dw, grp, bias, pad (same | int | valid | *)
+(*        causal), pm (zeros | reflect | replicate | circular)             *)
+(*   bn, eps, mom, aff, trs : BatchNorm after the layer and its options    *)
+(*   excl, reuse, pl (PIT layer placed by the user)                        *)
+(*   sn (SuperNet branches [k, bn]), sno (options the user set on the      *)
+(*        block: hard, gum, temp*10, fav = favoured branch or 0)           *)
 (*                                                                         *)
-(* Three things are modelled:                                              *)
-(*  (1) the LAYER SEQUENCE of a network (what a reader of the fx graph     *)
-(*      sees: one record per module call / functional op with its hyper-   *)
-(*      parameters and the positions of its producers): Flat, OrigSeq;     *)
-(*  (2) the OBJECT LEVEL of a conversion: a heap of layer objects (the     *)
-(*      user's objects <<"u", o>> and converter-made copies <<"c", o>>),   *)
-(*      the call-site table of the converted graph, the BatchNorm fusion   *)
-(*      pass (one fusion_fn call per matched CALL SITE, as implemented, or *)
-(*      once per layer object, reference), the mode flags; functions are   *)
-(*      compared as TERMS: a call site computes the sequence of symbolic   *)
-(*      operators <<W_o, B_o, ...>> (W = the layer's original affine map,  *)
-(*      B = its BatchNorm).  For generic parameters two terms are equal as *)
-(*      functions iff they are equal as sequences (B after B is not B);    *)
-(*  (3) the export walk (one rewrite per layer OBJECT still in searchable  *)
-(*      form; as implemented the BatchNorm is re-inserted after the call   *)
-(*      site visited first only).                                          *)
-(* Impl = "ref"  : intended behaviour (user-placed layers are adopted as   *)
-(*                 copies, fusion once per object, BN after every site).   *)
-(* Impl = "asis" : what plinio does; the deviations are the named known    *)
-(*                 findings KF_PlacedBN (F50) and KF_ReuseBN (F51).        *)
+(* Modelled:                                                               *)
+(*  (1) the LAYER SEQUENCE of a network (one record per module call /      *)
+(*      functional op with hyper-parameters and producer positions): Flat; *)
+(*  (2) the OBJECT LEVEL of a conversion: a heap of layer objects (user's  *)
+(*      objects and converter-made copies) each carrying a CONFIGURATION   *)
+(*      record, the call-site table of the converted graph, BatchNorm      *)
+(*      fusion (per call site as implemented / per object), SuperNet block *)
+(*      options, mode flags.  Functions are compared as TERMS: a call site *)
+(*      computes <<W(o, config), B_o, ...>>; for generic parameters two    *)
+(*      terms are equal as functions iff they are equal as sequences;      *)
+(*  (3) the export walk.                                                   *)
+(* Impl = "ref"   intended behaviour                                       *)
+(* Impl = "asis"  what plinio does; deviations = the named known findings  *)
+(* Impl = "droppm" | "snreset" | "stalemode"  sanity variants of "asis"    *)
+(*        (the copy of a layer loses its padding_mode / SuperNet(...)      *)
+(*        resets the options of the user's blocks / export() restores the  *)
+(*        mode found at import): every one must VIOLATE an invariant.      *)
 (***************************************************************************)
-EXTENDS FeatGraph
+EXTENDS Naturals, Integers, Sequences, FiniteSets
 
-(* The two named deviations of the as-implemented model.  When plinio is repaired, set the switch to FALSE (the   *)
-(* as-implemented model then coincides with the reference there), drop the finding from known_findings.json and *)
-(* remove the corresponding expected-to-fail config (ImportLifeMC_f50.cfg / _f51.cfg) from harness/checks/c07.py *)
+(* Named deviations of the as-implemented model.  When plinio is repaired, set the switch to FALSE (the as-implemented    *)
+(* model then coincides with the reference there), drop the finding from known_findings.json and remove the               *)
+(* corresponding expected-to-fail config (ImportLifeMC_f5x.cfg) from harness/checks/c07.py                                *)
 F50_OPEN == TRUE     \* user-placed PIT layers are adopted by reference and fused / folded in place
 F51_OPEN == TRUE     \* fusion once per call site; re-created BatchNorm after one call site only
-Dev(impl, open) == impl = "asis" /\ open
+F52_OPEN == TRUE     \* nn.Linear on a 3-D tensor: masks are sized after dimension 1, forward / export raise
+F53_OPEN == TRUE     \* BatchNorm(affine=False): PITBatchNorm copies weight / bias unconditionally, PIT(...) raises
+Dev(impl, open) == impl # "ref" /\ open
+
+(* ------------------------------ accessors ------------------------------- *)
+N(a)        == Len(a.nodes)
+Nd(a, n)    == a.nodes[n]
+Ins(a, n)   == IF n = 0 THEN <<>> ELSE Nd(a, n).ins
+In1(a, n)   == Ins(a, n)[1]
+Op(a, n)    == IF n = 0 THEN "in" ELSE Nd(a, n).op
+SeqSet(s)   == {s[i] : i \in DOMAIN s}
+IsLayer(a, n)    == Op(a, n) \in {"conv", "lin", "lin3"}
+IsDw(a, n)       == Op(a, n) = "conv" /\ Nd(a, n).dw
+Owner(a, n)      == IF IsLayer(a, n) /\ Nd(a, n).reuse > 0 THEN Nd(a, n).reuse ELSE n
+Excluded(a, n)   == IsLayer(a, n) /\ Nd(a, Owner(a, n)).excl
+Layers(a)        == {n \in 1..N(a) : IsLayer(a, n)}
+CallSites(a, m)  == {n \in 1..N(a) : IsLayer(a, n) /\ Owner(a, n) = m}
+Sites(a)         == 1..N(a)
+LNode(a, n)      == Nd(a, Owner(a, n))            \* the node that describes the layer object called at site n
+IsSN(a, n)       == Op(a, n) = "conv" /\ Len(Nd(a, n).sn) > 0
+PlainSites(a)    == {n \in Layers(a) : ~IsSN(a, n)}
+SNSites(a)       == {n \in Sites(a) : IsSN(a, n)}
+Owners(a)        == {Owner(a, n) : n \in Layers(a)}
+
+(* ------------------------------ static shapes --------------------------- *)
+(* tensors stay square in 2-D; padded convolutions (same / int = d*(k div 2) / causal) change the size by the stride only *)
+RECURSIVE Ch(_, _), Sp(_, _)
+Pow(x, e) == IF e = 1 THEN x ELSE x * x
+Ch(a, n) ==
+    IF n = 0 THEN a.c0
+    ELSE LET nd == Nd(a, n) IN
+         CASE nd.op = "conv" -> IF nd.dw THEN Ch(a, nd.ins[1]) ELSE nd.out
+           [] nd.op = "lin"  -> nd.out
+           [] nd.op = "flat" -> Ch(a, nd.ins[1]) * Pow(Sp(a, nd.ins[1]), a.dim)
+           [] OTHER          -> Ch(a, nd.ins[1])
+Sp(a, n) ==
+    IF n = 0 THEN a.sp
+    ELSE LET nd == Nd(a, n) IN
+         CASE nd.op = "conv" -> IF nd.pad = "valid" THEN ((Sp(a, nd.ins[1]) - nd.d * (nd.k - 1) - 1) \div nd.s) + 1
+                                ELSE ((Sp(a, nd.ins[1]) - 1) \div nd.s) + 1
+           [] nd.op = "lin"  -> 1
+           [] nd.op = "lin3" -> nd.out
+           [] nd.op = "flat" -> 1
+           [] nd.op = "pool" -> Sp(a, nd.ins[1]) \div 2
+           [] OTHER          -> Sp(a, nd.ins[1])
+RECURSIVE IsFlat(_, _)
+IsFlat(a, n) == IF n = 0 THEN FALSE
+                ELSE CASE Op(a, n) \in {"flat", "lin"} -> TRUE
+                       [] Op(a, n) \in {"conv", "lin3"} -> FALSE
+                       [] OTHER -> IsFlat(a, In1(a, n))
+
+(* ---------- sharing components of plinio's graph pass (only used to delimit the domain, see InDomain) ---------- *)
+Defining(a, n) == n = 0 \/ (IsLayer(a, n) /\ ~IsDw(a, n))
+KeptEdge(a, p, n) == p \in SeqSet(Ins(a, n)) /\ ~Defining(a, n)
+AllNodes(a) == 0..(N(a) + 1)
+Adj(a, x, y) == \/ (y <= N(a) /\ KeptEdge(a, x, y)) \/ (x <= N(a) /\ KeptEdge(a, y, x))
+                \/ (x = N(a) /\ y = N(a) + 1) \/ (y = N(a) /\ x = N(a) + 1)
+RECURSIVE Reach(_, _)
+Reach(a, S) == LET T == S \cup {y \in AllNodes(a) : \E x \in S : Adj(a, x, y)}
+               IN IF T = S THEN S ELSE Reach(a, T)
+Comp(a, n)         == Reach(a, {n})
+CompDefining(a, n) == {m \in Comp(a, n) : m <= N(a) /\ Defining(a, m)}
 
 (* ------------------------------ layer records --------------------------- *)
-\* field set of a layer record (documentation; the harness' REC0 in harness/import_gen.py has the same fields)
-R0 == [t |-> "", dim |-> 0, i |-> 0, o |-> 0, k |-> 0, d |-> 0, s |-> 0, g |-> 0, b |-> FALSE, p |-> 0,
-       eps |-> 0, mom |-> 0, aff |-> FALSE, trs |-> FALSE, pk |-> "", l |-> 0, r |-> 0, ins |-> <<>>]
-
 EpsOf(c) == IF c = 0 THEN 10000 ELSE 1000000          \* eps * 10^9   (1e-5 | 1e-3)
 MomOf(c) == IF c = 0 THEN 100000 ELSE 50000           \* momentum * 10^6  (0.1 | 0.05)
 SamePad == 1000                                       \* code of padding = 'same'
 
-\* (explicit constructors: cheaper for TLC than chains of EXCEPT on R0)
-Rec(t, dim, i, o, k, d, s, g, b, p, eps, mom, aff, trs, pk, l, r, ins) ==
-    [t |-> t, dim |-> dim, i |-> i, o |-> o, k |-> k, d |-> d, s |-> s, g |-> g, b |-> b, p |-> p,
+\* (explicit constructor; the harness' REC0 in harness/import_gen.py has the same fields)
+Rec(t, dim, i, o, k, d, s, g, b, p, pm, eps, mom, aff, trs, pk, l, r, ins) ==
+    [t |-> t, dim |-> dim, i |-> i, o |-> o, k |-> k, d |-> d, s |-> s, g |-> g, b |-> b, p |-> p, pm |-> pm,
      eps |-> eps, mom |-> mom, aff |-> aff, trs |-> trs, pk |-> pk, l |-> l, r |-> r, ins |-> ins]
-RIn            == Rec("in", 0, 0, 0, 0, 0, 0, 0, FALSE, 0, 0, 0, FALSE, FALSE, "", 0, 0, <<>>)
-RFun(t, ins)   == Rec(t, 0, 0, 0, 0, 0, 0, 0, FALSE, 0, 0, 0, FALSE, FALSE, "", 0, 0, ins)
-RPad(l, ins)   == Rec("pad", 0, 0, 0, 0, 0, 0, 0, FALSE, 0, 0, 0, FALSE, FALSE, "", l, 0, ins)
-RConv(dim, i, o, k, d, s, g, b, p, ins) ==
-    Rec("conv", dim, i, o, k, d, s, g, b, p, 0, 0, FALSE, FALSE, "", 0, 0, ins)
-RLin(i, o, b, ins) == Rec("lin", 0, i, o, 0, 0, 0, 0, b, 0, 0, 0, FALSE, FALSE, "", 0, 0, ins)
-RBn(dim, o, e, m, ins) ==
-    Rec("bn", dim, 0, o, 0, 0, 0, 0, FALSE, 0, EpsOf(e), MomOf(m), TRUE, TRUE, "", 0, 0, ins)
-RPool(dim, kind, ins) == Rec("pool", dim, 0, 0, 2, 0, 0, 0, FALSE, 0, 0, 0, FALSE, FALSE, kind, 0, 0, ins)
-RComb(nb, ins) == Rec("comb", 0, 0, nb, 0, 0, 0, 0, FALSE, 0, 0, 0, FALSE, FALSE, "", 0, 0, ins)
+RIn            == Rec("in", 0, 0, 0, 0, 0, 0, 0, FALSE, 0, "", 0, 0, FALSE, FALSE, "", 0, 0, <<>>)
+RFun(t, ins)   == Rec(t, 0, 0, 0, 0, 0, 0, 0, FALSE, 0, "", 0, 0, FALSE, FALSE, "", 0, 0, ins)
+RPad(l, ins)   == Rec("pad", 0, 0, 0, 0, 0, 0, 0, FALSE, 0, "", 0, 0, FALSE, FALSE, "", l, 0, ins)
+RConv(dim, i, o, k, d, s, g, b, p, pm, ins) ==
+    Rec("conv", dim, i, o, k, d, s, g, b, p, pm, 0, 0, FALSE, FALSE, "", 0, 0, ins)
+RLin(i, o, b, ins) == Rec("lin", 0, i, o, 0, 0, 0, 0, b, 0, "", 0, 0, FALSE, FALSE, "", 0, 0, ins)
+RBn(dim, o, e, m, aff, trs, ins) ==
+    Rec("bn", dim, 0, o, 0, 0, 0, 0, FALSE, 0, "", EpsOf(e), MomOf(m), aff, trs, "", 0, 0, ins)
+RPool(dim, kind, ins) == Rec("pool", dim, 0, 0, 2, 0, 0, 0, FALSE, 0, "", 0, 0, FALSE, FALSE, kind, 0, 0, ins)
+RComb(nb, ins) == Rec("comb", 0, 0, nb, 0, 0, 0, 0, FALSE, 0, "", 0, 0, FALSE, FALSE, "", 0, 0, ins)
+
+(* ------------------------------ layer configuration --------------------- *)
+(* The configuration of the layer object of owner node o: everything the constructor of the layer was given *)
+(* besides the channel counts and the bias (those are tracked separately).                                  *)
+CfgOf(a, o) ==
+    LET nd == Nd(a, o) IN
+    IF nd.op = "conv"
+    THEN [t |-> "conv", k |-> nd.k, d |-> nd.d, s |-> nd.s, dw |-> nd.dw, grp |-> nd.grp, pad |-> nd.pad, pm |-> nd.pm]
+    ELSE [t |-> nd.op, k |-> 0, d |-> 0, s |-> 0, dw |-> FALSE, grp |-> 1, pad |-> "", pm |-> ""]
+CopyCfg(impl, c) == IF impl = "droppm" /\ c.t = "conv" THEN [c EXCEPT !.pm = "zeros"] ELSE c
+OrigCfg(a) == [n \in Sites(a) |-> IF IsLayer(a, n) THEN CfgOf(a, Owner(a, n)) ELSE <<>>]
 
 (* ------------------------------ flattening ------------------------------ *)
-(* Flat(a, B, H, C): layer sequence of architecture a where call site n has bias B[n], is followed by a      *)
-(* BatchNorm iff H[n], and SuperNet block n is kept whole (C[n] = 0) or replaced by its branch C[n].          *)
-(* The accumulator is [s |-> records so far, p |-> position of every tensor so far (p[t+1] = tensor t)].      *)
-LNode(a, n) == Nd(a, Owner(a, n))            \* the node that describes the layer object called at site n
-IsSN(a, n)  == Op(a, n) = "conv" /\ Len(Nd(a, n).sn) > 0
-ConvPad(a, nd, k) == IF a.dim = 1 THEN (IF nd.causal THEN 0 ELSE SamePad) ELSE k \div 2
-
+(* Flat(a, K, B, H, C): layer sequence of architecture a where the layer called at site n has configuration K[n] *)
+(* and bias B[n], is followed by a BatchNorm iff H[n], and SuperNet block n is kept whole (C[n] = 0) or replaced *)
+(* by its branch C[n].  Accumulator [s |-> records so far, p |-> position of every tensor (p[t+1] = tensor t)].  *)
 Head0(a) == IF a.two = "no" THEN [s |-> <<RIn>>, p |-> <<1>>]
-           ELSE [s |-> <<RIn, RIn, RFun(a.two, <<1, 2>>)>>, p |-> <<3>>]
-
+            ELSE [s |-> <<RIn, RIn, RFun(a.two, <<1, 2>>)>>, p |-> <<3>>]
 PosOf(acc, t) == acc.p[t + 1]
 Push(acc, rec) == [acc EXCEPT !.s = Append(@, rec)]
 Last(acc) == Len(acc.s)
 Close(acc) == [acc EXCEPT !.p = Append(@, Len(acc.s))]     \* the tensor of the current node is the last record
 
-\* one SuperNet branch: conv(k_i) [+ BN]; returns the accumulator, the branch tail is its last record
+\* one SuperNet branch: conv(k_i) [+ BN]; the branch tail is the last record
 Branch(acc, a, n, br, src) ==
     LET nd == Nd(a, n)
         c  == Push(acc, RConv(a.dim, Ch(a, nd.ins[1]), nd.out, br.k, 1, 1, 1, nd.bias,
-                              IF a.dim = 1 THEN SamePad ELSE br.k \div 2, <<src>>))
-    IN  IF br.bn THEN Push(c, RBn(a.dim, nd.out, nd.eps, nd.mom, <<Last(c)>>)) ELSE c
-
+                              IF a.dim = 1 THEN SamePad ELSE br.k \div 2, "zeros", <<src>>))
+    IN  IF br.bn THEN Push(c, RBn(a.dim, nd.out, nd.eps, nd.mom, TRUE, TRUE, <<Last(c)>>)) ELSE c
 RECURSIVE Branches(_, _, _, _, _, _)
 Branches(acc, a, n, i, src, tails) ==       \* all branches of block n, then the combiner
     IF i > Len(Nd(a, n).sn) THEN Push(acc, RComb(Len(Nd(a, n).sn), tails))
     ELSE LET b == Branch(acc, a, n, Nd(a, n).sn[i], src) IN Branches(b, a, n, i + 1, src, Append(tails, Last(b)))
 
-Emit(acc, a, n, B, H, C) ==
+ConvPadCode(c) == CASE c.pad = "same" -> SamePad
+                    [] c.pad = "int"  -> c.d * (c.k \div 2)
+                    [] OTHER          -> 0                        \* valid, causal
+ConvPm(c) == IF c.pad \in {"same", "int"} THEN c.pm ELSE "zeros"  \* un-padded layers are built with the default mode
+
+Emit(acc, a, n, K, B, H, C) ==
     LET nd  == Nd(a, n)
         ld  == LNode(a, n)
         src == PosOf(acc, nd.ins[1])
         cin == Ch(a, nd.ins[1])
+        c   == K[n]
     IN Close(
        CASE nd.op = "conv" /\ IsSN(a, n) ->
                 IF C[n] = 0 THEN Branches(acc, a, n, 1, src, <<>>)
                 ELSE Branch(acc, a, n, nd.sn[C[n]], src)
          [] nd.op = "conv" /\ ~IsSN(a, n) ->
-                LET a1 == IF a.dim = 1 /\ ld.causal THEN Push(acc, RPad((ld.k - 1) * ld.d, <<src>>)) ELSE acc
-                    s1 == IF a.dim = 1 /\ ld.causal THEN Last(a1) ELSE src
-                    a2 == Push(a1, RConv(a.dim, cin, Ch(a, n), ld.k, ld.d, ld.s, IF ld.dw THEN cin ELSE 1, B[n],
-                                         ConvPad(a, ld, ld.k), <<s1>>))
-                IN  IF H[n] THEN Push(a2, RBn(a.dim, Ch(a, n), ld.eps, ld.mom, <<Last(a2)>>)) ELSE a2
+                LET a1 == IF c.pad = "causal" THEN Push(acc, RPad((c.k - 1) * c.d, <<src>>)) ELSE acc
+                    s1 == IF c.pad = "causal" THEN Last(a1) ELSE src
+                    a2 == Push(a1, RConv(a.dim, cin, Ch(a, n), c.k, c.d, c.s, IF c.dw THEN cin ELSE c.grp, B[n],
+                                         ConvPadCode(c), ConvPm(c), <<s1>>))
+                IN  IF H[n] THEN Push(a2, RBn(a.dim, Ch(a, n), ld.eps, ld.mom, ld.aff, ld.trs, <<Last(a2)>>)) ELSE a2
          [] nd.op = "lin" ->
                 LET a2 == Push(acc, RLin(cin, ld.out, B[n], <<src>>))
-                IN  IF H[n] THEN Push(a2, RBn(1, ld.out, ld.eps, ld.mom, <<Last(a2)>>)) ELSE a2
+                IN  IF H[n] THEN Push(a2, RBn(1, ld.out, ld.eps, ld.mom, ld.aff, ld.trs, <<Last(a2)>>)) ELSE a2
+         [] nd.op = "lin3" -> Push(acc, RLin(Sp(a, nd.ins[1]), ld.out, B[n], <<src>>))
          [] nd.op = "pool" -> Push(acc, RPool(a.dim, nd.kind, <<src>>))
-         [] nd.op \in {"add", "cat", "catt"} ->
-                Push(acc, RFun(nd.op, [j \in 1..Len(nd.ins) |-> PosOf(acc, nd.ins[j])]))
-         [] OTHER -> Push(acc, RFun(nd.op, <<src>>)))           \* relu, flat, id
+         [] nd.op = "add"  -> Push(acc, RFun("add", <<PosOf(acc, nd.ins[1]), PosOf(acc, nd.ins[2])>>))
+         [] OTHER -> Push(acc, RFun(nd.op, <<src>>)))           \* relu, drop, flat
 
-RECURSIVE FlatFrom(_, _, _, _, _, _)
-FlatFrom(acc, a, n, B, H, C) == IF n > N(a) THEN acc.s ELSE FlatFrom(Emit(acc, a, n, B, H, C), a, n + 1, B, H, C)
-Flat(a, B, H, C) == FlatFrom(Head0(a), a, 1, B, H, C)
+RECURSIVE FlatFrom(_, _, _, _, _, _, _)
+FlatFrom(acc, a, n, K, B, H, C) ==
+    IF n > N(a) THEN acc.s ELSE FlatFrom(Emit(acc, a, n, K, B, H, C), a, n + 1, K, B, H, C)
+Flat(a, K, B, H, C) == FlatFrom(Head0(a), a, 1, K, B, H, C)
 
-Sites(a)    == 1..N(a)
 OrigBias(a) == [n \in Sites(a) |-> IsLayer(a, n) /\ LNode(a, n).bias]
-OrigBn(a)   == [n \in Sites(a) |-> IsLayer(a, n) /\ ~IsSN(a, n) /\ LNode(a, n).bn]
+OrigBn(a)   == [n \in Sites(a) |-> IsLayer(a, n) /\ ~IsSN(a, n) /\ Op(a, n) # "lin3" /\ LNode(a, n).bn]
 NoChoice(a) == [n \in Sites(a) |-> 0]
-OrigSeq(a)  == Flat(a, OrigBias(a), OrigBn(a), NoChoice(a))
+OrigSeq(a)  == Flat(a, OrigCfg(a), OrigBias(a), OrigBn(a), NoChoice(a))
 
 (* ------------------------------ configurations -------------------------- *)
 (* cfg = [method |-> "PIT"|"SN"|"MPS", mode |-> "train"|"eval", fold |-> BOOLEAN, auto |-> BOOLEAN]            *)
@@ -134,9 +202,8 @@ OrigSeq(a)  == Flat(a, OrigBias(a), OrigBn(a), NoChoice(a))
 Handled(a, cfg, n) ==
     /\ cfg.method = "PIT" /\ IsLayer(a, n) /\ ~IsSN(a, n)
     /\ (LNode(a, n).pl \/ (cfg.auto /\ ~Excluded(a, n)))
-\* SuperNet blocks: which branch an immediate export selects (uniform coefficients: the first maximum)
-FirstChoice(a) == [n \in Sites(a) |-> IF IsSN(a, n) THEN 1 ELSE 0]
-SNSites(a) == {n \in Sites(a) : IsSN(a, n)}
+\* SuperNet blocks: the branch an immediate export selects = first maximum of the coefficients the user left
+FavChoice(a) == [n \in Sites(a) |-> IF IsSN(a, n) THEN (IF Nd(a, n).sno.fav > 0 THEN Nd(a, n).sno.fav ELSE 1) ELSE 0]
 Choices(a) == {[n \in Sites(a) |-> IF IsSN(a, n) THEN f[n] ELSE 0] :
                   f \in {g \in [SNSites(a) -> 1..3] : \A n \in SNSites(a) : g[n] <= Len(Nd(a, n).sn)}}
 
@@ -144,36 +211,48 @@ Choices(a) == {[n \in Sites(a) |-> IF IsSN(a, n) THEN f[n] ELSE 0] :
 (* a folded BatchNorm is absorbed into a bias and every SuperNet block is replaced by one of its branches.    *)
 ExpBias(a, cfg) == [n \in Sites(a) |-> OrigBias(a)[n] \/ (Handled(a, cfg, n) /\ cfg.fold /\ OrigBn(a)[n])]
 ExpBn(a, cfg)   == [n \in Sites(a) |-> OrigBn(a)[n] /\ ~(Handled(a, cfg, n) /\ cfg.fold)]
-ExpSeq(a, cfg, c) == Flat(a, ExpBias(a, cfg), ExpBn(a, cfg), c)
+ExpSeq(a, cfg, c) == Flat(a, OrigCfg(a), ExpBias(a, cfg), ExpBn(a, cfg), c)
+(* ... and of the converted (searchable) graph: same layers with the same configuration; the BatchNorm of a   *)
+(* searchable layer lives inside the layer (fused) or in its weights (folded)                                 *)
+NasBn(a, cfg)   == [n \in Sites(a) |-> OrigBn(a)[n] /\ ~Handled(a, cfg, n)]
+NasSeq(a, cfg)  == Flat(a, OrigCfg(a), ExpBias(a, cfg), NasBn(a, cfg), NoChoice(a))
+\* the configuration part of a layer sequence: conv / linear records without their wiring
+CfgOnly(s) == LET idx == {i \in DOMAIN s : s[i].t \in {"conv", "lin"}}
+                  RECURSIVE Take(_)
+                  Take(i) == IF i > Len(s) THEN <<>>
+                             ELSE IF i \in idx THEN <<[s[i] EXCEPT !.ins = <<>>]>> \o Take(i + 1) ELSE Take(i + 1)
+              IN  Take(1)
 
 (* ------------------------------ object level ---------------------------- *)
-W(o) == [s |-> "W", o |-> o]
-B(o) == [s |-> "B", o |-> o]
-Owners(a) == {Owner(a, n) : n \in Layers(a)}
-UObj(o) == <<"u", o>>
-CObj(o) == <<"c", o>>
+WSym(o, c) == [s |-> "W", o |-> o, c |-> c]
+B(o)       == [s |-> "B", o |-> o]
+Rep(o, k)  == [i \in 1..k |-> B(o)]
 
 \* the layer objects of the user's model, as written by the user
 UserHeap(a, cfg) ==
     [o \in Owners(a) |->
-        [pit |-> Nd(a, o).pl, w |-> <<W(o)>>, bias |-> Nd(a, o).bias, bnattr |-> FALSE,
+        [pit |-> Nd(a, o).pl, cfg |-> CfgOf(a, o), nfold |-> 0, bias |-> Nd(a, o).bias, bnattr |-> FALSE,
          fold |-> Nd(a, o).pl /\ cfg.fold, buf |-> FALSE]]
+DefaultOpt(o) == [hard |-> FALSE, gum |-> o.gum, temp |-> 10, fav |-> o.fav]
+UserOpts(a) == [n \in SNSites(a) |-> Nd(a, n).sno]
 
-OrigTerm(a, n) == <<W(Owner(a, n))>> \o (IF OrigBn(a)[n] THEN <<B(Owner(a, n))>> ELSE <<>>)
-\* forward of one layer object: weights (with everything folded into them), then its fused BatchNorm attribute
-ObjFwd(ob, o) == ob.w \o (IF ob.pit /\ ob.bnattr /\ ~ob.fold THEN <<B(o)>> ELSE <<>>)
+OrigTerm(a, n) ==
+    IF IsSN(a, n) THEN <<[s |-> "SN", o |-> n, opt |-> Nd(a, n).sno]>>
+    ELSE <<WSym(Owner(a, n), CfgOf(a, Owner(a, n)))>> \o (IF OrigBn(a)[n] THEN <<B(Owner(a, n))>> ELSE <<>>)
+\* forward of one layer object: its weights (configuration; everything folded into them), then its fused BatchNorm
+ObjFwd(ob, o) == <<WSym(o, ob.cfg)>> \o Rep(o, ob.nfold) \o (IF ob.pit /\ ob.bnattr /\ ~ob.fold THEN <<B(o)>> ELSE <<>>)
 
-(* Conversion.  Result: [uh: heap of the user's objects after the call, ch: heap of copies made by the        *)
-(* converter (meaningful where copied[o]), ref: owner -> "u" | "c" (which object the converted graph calls), *)
-(* bnode: site -> the converted graph still has a BatchNorm node after the site, wtrain, strain, utrain].     *)
+(* Conversion.  Result: [ok, uh: heap of the user's objects after the call, ch: heap of copies made by the    *)
+(* converter (meaningful where copied[o]), bnode: site -> the converted graph still has a BatchNorm node after *)
+(* the site, sopt: options of the (shared) SuperNet combiners after the call, wtrain, strain, utrain].        *)
 Copied(impl, a, cfg, o) ==
     /\ cfg.method = "PIT"
     /\ \/ (cfg.auto /\ ~Nd(a, o).pl /\ ~Nd(a, o).excl /\ ~IsSN(a, o))        \* autoimport: a new PIT layer
        \/ (~Dev(impl, F50_OPEN) /\ Nd(a, o).pl)                             \* reference: adopt a copy
 
-FuseOnce(ob, o, cfg) ==
+FuseOnce(ob, cfg) ==
     [ob EXCEPT !.bnattr = TRUE,
-               !.w = IF cfg.fold THEN Append(@, B(o)) ELSE @,
+               !.nfold = IF cfg.fold THEN @ + 1 ELSE @,
                !.bias = IF cfg.fold THEN TRUE ELSE @]
 
 \* BatchNorm fusion over the call sites n..N in graph order.  st = [uh, ch, bnode]
@@ -183,7 +262,7 @@ FusePass(impl, a, cfg, copied, st, n) ==
     ELSE IF ~(IsLayer(a, n) /\ st.bnode[n] /\ Handled(a, cfg, n)) THEN FusePass(impl, a, cfg, copied, st, n + 1)
     ELSE LET o   == Owner(a, n)
              cur == IF copied[o] THEN st.ch[o] ELSE st.uh[o]
-             new == IF ~Dev(impl, F51_OPEN) /\ cur.bnattr THEN cur ELSE FuseOnce(cur, o, cfg)
+             new == IF ~Dev(impl, F51_OPEN) /\ cur.bnattr THEN cur ELSE FuseOnce(cur, cfg)
              st2 == IF copied[o] THEN [st EXCEPT !.ch[o] = new, !.bnode[n] = FALSE]
                     ELSE [st EXCEPT !.uh[o] = new, !.bnode[n] = FALSE]
          IN  FusePass(impl, a, cfg, copied, st2, n + 1)
@@ -191,10 +270,33 @@ FusePass(impl, a, cfg, copied, st, n) ==
 \* MPS folds every Conv2d/Linear + BatchNorm pair into the CALLER's layer object, by design (recorded, not claimed)
 MpsFolds(a, n) == IsLayer(a, n) /\ OrigBn(a)[n] /\ ~(Op(a, n) = "conv" /\ a.dim = 1)
 
+(* ------------------------------ known findings / documented rejections -- *)
+\* F50: a PIT layer placed by the user and followed by a BatchNorm is fused / folded IN the user's own object
+KF_PlacedBN(a, cfg) == \E n \in PlainSites(a) : cfg.method = "PIT" /\ LNode(a, n).pl /\ OrigBn(a)[n]
+\* F51: a conv/linear + BatchNorm pair invoked at several call sites that the converter makes searchable
+KF_ReuseBN(a, cfg)  == \E n \in PlainSites(a) : Handled(a, cfg, n) /\ OrigBn(a)[n]
+                                                 /\ Cardinality(CallSites(a, Owner(a, n))) > 1
+\* F52: a searchable nn.Linear applied to a 3-D tensor (features on the last axis, masks sized after axis 1)
+KF_Lin3(a, cfg)     == \E n \in PlainSites(a) : Op(a, n) = "lin3" /\ Handled(a, cfg, n)
+\* F53: autoconversion of a BatchNorm without affine parameters (every BatchNorm of the traced graph is rewritten)
+KF_BnNoAffine(a, cfg) == cfg.method = "PIT" /\ cfg.auto /\ \E n \in PlainSites(a) : OrigBn(a)[n] /\ ~LNode(a, n).aff
+\* documented rejections (plinio raises an error that says so): skipped and counted, never reported
+Rej_Trs(a, cfg)    == \E n \in PlainSites(a) : Handled(a, cfg, n) /\ OrigBn(a)[n] /\ ~LNode(a, n).trs
+Rej_Groups(a, cfg) == \E n \in PlainSites(a) : Handled(a, cfg, n) /\ Op(a, n) = "conv" /\ ~LNode(a, n).dw /\ LNode(a, n).grp > 1
+Rejected(a, cfg)   == Rej_Trs(a, cfg) \/ Rej_Groups(a, cfg)
+SupportedImport(a, cfg) == ~KF_PlacedBN(a, cfg) /\ ~KF_ReuseBN(a, cfg) /\ ~KF_Lin3(a, cfg) /\ ~KF_BnNoAffine(a, cfg)
+
+\* Topologies that are findings of the graph pass itself (C09: F19 depthwise layer whose sharing component has no
+\* features-defining node - here: directly on the concatenation of the two inputs; F24 producers of different widths in
+\* one sharing component - conv -> flatten added to a linear output).  They are not C07's and are not generated.
+KF_DwOrphanTwo(a) == a.two = "cat" /\ \E n \in Layers(a) : IsDw(a, n) /\ 0 \in Comp(a, n) /\ CompDefining(a, n) = {0}
+KF_MixedWidth(a)  == \E n \in Layers(a) : \E m1, m2 \in CompDefining(a, n) : Ch(a, m1) # Ch(a, m2)
+InDomain(a) == ~KF_DwOrphanTwo(a) /\ ~KF_MixedWidth(a)
+
 Convert(impl, a, cfg) ==
     LET uh0    == UserHeap(a, cfg)
         copied == [o \in Owners(a) |-> Copied(impl, a, cfg, o)]
-        ch0    == [o \in Owners(a) |-> [uh0[o] EXCEPT !.pit = TRUE, !.fold = cfg.fold]]
+        ch0    == [o \in Owners(a) |-> [uh0[o] EXCEPT !.pit = TRUE, !.fold = cfg.fold, !.cfg = CopyCfg(impl, @)]]
         st0    == [uh |-> uh0, ch |-> ch0, bnode |-> OrigBn(a)]
         st1    == IF cfg.method = "PIT" THEN FusePass(impl, a, cfg, copied, st0, 1) ELSE st0
         \* register_input_features: every searchable layer object receives the calculator buffers
@@ -202,31 +304,38 @@ Convert(impl, a, cfg) ==
                              IF cfg.method = "PIT" /\ h[o].pit /\ copied[o] = which /\ (\E n \in CallSites(a, o) : Handled(a, cfg, n))
                              THEN [h[o] EXCEPT !.buf = TRUE] ELSE h[o]]
         found  == cfg.mode = "train"
-    IN [uh |-> mark(st1.uh, FALSE), ch |-> mark(st1.ch, TRUE), copied |-> copied, bnode |-> st1.bnode,
-        wtrain |-> IF cfg.method = "SN" /\ impl = "asis" THEN TRUE ELSE found,
-        strain |-> IF cfg.method = "SN" /\ impl = "asis" THEN FALSE ELSE found,
-        utrain |-> IF impl = "asis" THEN FALSE ELSE found]
+        snasis == cfg.method = "SN" /\ impl # "ref"
+    IN [ok |-> ~(Dev(impl, F52_OPEN) /\ KF_Lin3(a, cfg)) /\ ~(Dev(impl, F53_OPEN) /\ KF_BnNoAffine(a, cfg)),
+        uh |-> mark(st1.uh, FALSE), ch |-> mark(st1.ch, TRUE), copied |-> copied, bnode |-> st1.bnode,
+        sopt |-> [n \in SNSites(a) |-> IF impl = "snreset" /\ cfg.method = "SN" THEN DefaultOpt(Nd(a, n).sno) ELSE Nd(a, n).sno],
+        wtrain |-> IF snasis THEN TRUE ELSE found,
+        strain |-> IF snasis THEN FALSE ELSE found,
+        utrain |-> IF impl # "ref" THEN FALSE ELSE found]
 
 NasObj(cv, o)  == IF cv.copied[o] THEN cv.ch[o] ELSE cv.uh[o]
 NasTerm(a, cv, n) ==
-    LET o == Owner(a, n) IN ObjFwd(NasObj(cv, o), o) \o (IF cv.bnode[n] THEN <<B(o)>> ELSE <<>>)
+    IF IsSN(a, n) THEN <<[s |-> "SN", o |-> n, opt |-> cv.sopt[n]]>>           \* the combiners ARE the user's objects
+    ELSE LET o == Owner(a, n) IN ObjFwd(NasObj(cv, o), o) \o (IF cv.bnode[n] THEN <<B(o)>> ELSE <<>>)
 \* the user's own forward after the conversion: his graph (Python code) is unchanged, his objects may not be
 UserTerm(a, cv, n) ==
-    LET o == Owner(a, n) IN ObjFwd(cv.uh[o], o) \o (IF OrigBn(a)[n] THEN <<B(o)>> ELSE <<>>)
-
-PlainSites(a) == {n \in Layers(a) : ~IsSN(a, n)}       \* SuperNet blocks are shared by reference, nothing is rewritten
+    IF IsSN(a, n) THEN <<[s |-> "SN", o |-> n, opt |-> cv.sopt[n]]>>
+    ELSE LET o == Owner(a, n) IN ObjFwd(cv.uh[o], o) \o (IF OrigBn(a)[n] THEN <<B(o)>> ELSE <<>>)
 
 (* ------------------------------ the property ---------------------------- *)
-FnPreserved(a, cv)    == \A n \in PlainSites(a) : NasTerm(a, cv, n) = OrigTerm(a, n)
-UserParamsKept(a, cfg, cv) == \A o \in Owners(a) : cv.uh[o].w = <<W(o)>> /\ cv.uh[o].bias = Nd(a, o).bias
-UserFnKept(a, cv)     == \A n \in PlainSites(a) : UserTerm(a, cv, n) = OrigTerm(a, n)
+FnPreserved(a, cv)    == \A n \in Layers(a) : NasTerm(a, cv, n) = OrigTerm(a, n)
+UserParamsKept(a, cfg, cv) == \A o \in Owners(a) : cv.uh[o].nfold = 0 /\ cv.uh[o].bias = Nd(a, o).bias
+UserFnKept(a, cv)     == \A n \in Layers(a) : UserTerm(a, cv, n) = OrigTerm(a, n)
+UserOptsKept(a, cv)   == cv.sopt = UserOpts(a)
 UserKeysKept(a, cv)   == \A o \in Owners(a) : ~cv.uh[o].buf /\ ~cv.uh[o].bnattr
+\* field by field: the layer object the search works on has the configuration of the layer it replaces
+ImportedConfig(a, cfg, cv) == \A n \in PlainSites(a) : NasObj(cv, Owner(a, n)).cfg = CfgOf(a, Owner(a, n))
 ModeKept(cfg, cv)     == cv.wtrain = (cfg.mode = "train") /\ cv.strain = (cfg.mode = "train")
 
 (* ------------------------------ export ---------------------------------- *)
 (* One rewrite per layer OBJECT that is still searchable.  As implemented the walk (reverse BFS from the      *)
 (* output) rewrites the object at the call site it meets first - for the grammar the LAST site - and inserts  *)
 (* the re-created BatchNorm after that site only; the other sites then call a plain layer and are skipped.    *)
+(* The exported layer is constructed from the attributes of the searchable layer object.                      *)
 BnSite(a, o) == CHOOSE m \in CallSites(a, o) : \A x \in CallSites(a, o) : x <= m
 ExportBn(impl, a, cfg, cv) ==
     [n \in Sites(a) |->
@@ -235,9 +344,10 @@ ExportBn(impl, a, cfg, cv) ==
              \/ cv.bnode[n]
              \/ (Handled(a, cfg, n) /\ ob.bnattr /\ ~ob.fold /\ (~Dev(impl, F51_OPEN) \/ n = BnSite(a, o)))]
 ExportBias(a, cv) == [n \in Sites(a) |-> IsLayer(a, n) /\ NasObj(cv, Owner(a, n)).bias]
+ExportCfg(a, cv)  == [n \in Sites(a) |-> IF IsLayer(a, n) THEN NasObj(cv, Owner(a, n)).cfg ELSE <<>>]
+ExportChoice(a, cfg) == IF cfg.method = "SN" THEN FavChoice(a) ELSE NoChoice(a)
 ExportSeq(impl, a, cfg, cv) ==
-    Flat(a, ExportBias(a, cv), ExportBn(impl, a, cfg, cv),
-         IF cfg.method = "SN" THEN FirstChoice(a) ELSE NoChoice(a))
+    Flat(a, ExportCfg(a, cv), ExportBias(a, cv), ExportBn(impl, a, cfg, cv), ExportChoice(a, cfg))
 \* every way the as-implemented export can place the single re-created BatchNorm of a reused layer
 MultiOwners(a) == {o \in Owners(a) : Cardinality(CallSites(a, o)) > 1}
 AsisBnVariants(a, cfg, cv) ==
@@ -248,21 +358,5 @@ AsisBnVariants(a, cfg, cv) ==
                                 /\ n = (IF o \in MultiOwners(a) THEN pick[o] ELSE BnSite(a, o)))]
      : pick \in {f \in [MultiOwners(a) -> Sites(a)] : \A o \in MultiOwners(a) : f[o] \in CallSites(a, o)}}
 
-ExportIso(impl, a, cfg, cv) ==
-    ExportSeq(impl, a, cfg, cv) = ExpSeq(a, cfg, IF cfg.method = "SN" THEN FirstChoice(a) ELSE NoChoice(a))
-
-(* ------------------------------ known findings -------------------------- *)
-\* F50: a PIT layer placed by the user and followed by a BatchNorm is fused / folded IN the user's own object
-KF_PlacedBN(a, cfg) == \E n \in PlainSites(a) : cfg.method = "PIT" /\ LNode(a, n).pl /\ OrigBn(a)[n]
-\* F51: a conv/linear + BatchNorm pair invoked at several call sites that the converter makes searchable
-KF_ReuseBN(a, cfg)  == \E n \in PlainSites(a) : Handled(a, cfg, n) /\ OrigBn(a)[n]
-                                                 /\ Cardinality(CallSites(a, Owner(a, n))) > 1
-\* Topologies that are findings of the graph pass itself (C09: F19 depthwise layer whose sharing component has no
-\* features-defining node - here: directly on the concatenation of the two inputs; F24 producers of different widths in
-\* one sharing component - conv -> flatten added to a linear output).  They are not C07's and are not generated.
-KF_DwOrphanTwo(a) == a.two = "cat" /\ \E n \in Layers(a) : IsDw(a, n) /\ 0 \in Comp(a, n) /\ CompDefining(a, n) = {0}
-KF_MixedWidth(a)  == \E n \in Layers(a) : \E m1, m2 \in CompDefining(a, n) : Ch(a, m1) # Ch(a, m2)
-InDomain(a) == ~KF_DwOrphanTwo(a) /\ ~KF_MixedWidth(a)
-
-SupportedImport(a, cfg) == ~KF_PlacedBN(a, cfg) /\ ~KF_ReuseBN(a, cfg)
+ExportIso(impl, a, cfg, cv) == ExportSeq(impl, a, cfg, cv) = ExpSeq(a, cfg, ExportChoice(a, cfg))
 =============================================================================
